@@ -417,7 +417,7 @@ Hypothesis residA_spec : forall x, length x = n -> residA x b = vsub b (mulA x).
 
 Lemma fdiv_some a c q : fdiv a c = Some q -> c <> 0 /\ q = a / c.
 Proof.
-  unfold KDefs.fdiv. destruct (eqb c 0) eqn:E; [discriminate|]. intros H; inversion H; subst.
+  unfold KDefs.fdiv. destruct (eqb c 0) eqn:E; [discriminate|]. intros H; inversion H; subst q.
   split; [|reflexivity]. intros ->. assert (eqb 0 0 = true) by (apply eqb_spec; reflexivity). congruence.
 Qed.
 Lemma fdiv_zero a : fdiv a 0 = None.
@@ -473,7 +473,7 @@ Proof.
   intros (Hx & Hr & Hp & Hres & Hrr & Horth & pre & Hh & Hpre) Hs.
   unfold KDefs.cg_step in Hs; cbn [o_inner o_axpy o_scale seq_ops] in Hs.
   destruct (ltb (inner (mulA (cg_p s)) (cg_p s)) 0).
-  { inversion Hs; subst; unfold cg_inv; simpl. repeat split; auto. exists pre; split; assumption. }
+  { inversion Hs; subst s'; unfold cg_inv; simpl. repeat split; auto. exists pre; split; assumption. }
   destruct (fdiv (cg_rr s) (inner (mulA (cg_p s)) (cg_p s))) as [alpha|] eqn:Ea; [|discriminate].
   apply fdiv_some in Ea. destruct Ea as [HApp ->].
   set (App := inner (mulA (cg_p s)) (cg_p s)) in *.
@@ -519,7 +519,7 @@ Proof.
   intros (Hx & Hr & Hp & Hres & Hrr & Horth & pre & Hh & Hpre) Hs Hind.
   unfold KDefs.cg_step in Hs; cbn [o_inner o_axpy o_scale seq_ops] in Hs.
   destruct (ltb (inner (mulA (cg_p s)) (cg_p s)) 0).
-  { inversion Hs; subst; simpl in Hind; discriminate. }
+  { inversion Hs; subst s'; simpl in Hind; discriminate. }
   destruct (fdiv (cg_rr s) (inner (mulA (cg_p s)) (cg_p s))) as [alpha|] eqn:Ea; [|discriminate].
   apply fdiv_some in Ea. destruct Ea as [HApp ->].
   match type of Hs with context [fdiv ?a ?c] => destruct (fdiv a c) as [beta|]; [|discriminate] end.
@@ -683,16 +683,16 @@ Qed.
 Lemma cg_step_hist s s' : cgstep s = Some s' -> exists t, cg_hist s' = cg_hist s ++ t.
 Proof.
   intros Hs. unfold KDefs.cg_step in Hs; cbn [o_inner o_axpy o_scale seq_ops] in Hs.
-  destruct (ltb _ 0); [inversion Hs; subst; exists []; simpl; rewrite app_nil_r; reflexivity|].
+  destruct (ltb _ 0); [inversion Hs; subst s'; exists []; simpl; rewrite app_nil_r; reflexivity|].
   destruct (fdiv _ _) as [alpha|]; [|discriminate].
   destruct (fdiv _ _) as [beta|]; [|discriminate].
-  inversion Hs; subst; simpl. eexists; reflexivity.
+  inversion Hs; subst s'; simpl. eexists; reflexivity.
 Qed.
 
 Lemma cg_iter_hist k s s' : iter_n cgstep k s = Some s' -> exists t, cg_hist s' = cg_hist s ++ t.
 Proof.
   revert s; induction k as [|k IH]; intros s H; simpl in H.
-  - inversion H; subst. exists []. rewrite app_nil_r. reflexivity.
+  - inversion H; subst s'. exists []. rewrite app_nil_r. reflexivity.
   - destruct (cgstep s) as [s1|] eqn:Es; [|discriminate].
     destruct (cg_step_hist _ _ Es) as [t1 H1]. destruct (IH _ H) as [t2 H2].
     exists (t1 ++ t2). rewrite H2, H1, app_assoc. reflexivity.
@@ -704,7 +704,8 @@ Theorem cg_history_true K x0 sK : length x0 = n -> iter_n cgstep K (cginit x0) =
   (forall j, (j <= K)%nat -> exists sj, iter_n cgstep j (cginit x0) = Some sj /\
       nth (cg_iter sj) (cg_hist sK) 0 = true_res_sq (cg_x sj)) /\
   last (cg_hist sK) 0 = true_res_sq (cg_x sK) /\ length (cg_hist sK) = S (cg_iter sK).
-Proof.
+Proof using Fth eqb_spec Hb mulA_len mulA_lin residA_spec.
+  try clear SPD; try clear mulA_sym; try clear Hsol; try clear Hxs; try clear xs. try clear Hparts; try clear parts.
   intros Hx0 HK.
   assert (Hinv : forall k s, iter_n cgstep k (cginit x0) = Some s -> cg_inv s).
   { intros k s H. eapply (iter_n_invariant _ cgstep cg_inv); [|apply cg_init_inv; exact Hx0|exact H].
@@ -737,12 +738,13 @@ Definition bi_inv (s : bi_state F) : Prop :=
 Lemma bi_init_inv x0 : length x0 = n -> bi_inv (biinit x0).
 Proof.
   intros H. pose proof (residA_len x0 H) as L. unfold KDefs.bi_init, bi_inv; simpl.
-  split; [exact H|]. split; [exact L|]. split; [intros p Hp; inversion Hp; subst; exact L|].
+  split; [exact H|]. split; [exact L|]. split; [intros p Hp; inversion Hp; subst p; exact L|].
   split; [apply residA_spec; exact H|]. split; [reflexivity|]. exists []. split; reflexivity.
 Qed.
 
 Lemma bi_step_inv seqform rstar s s' : length rstar = n -> bi_inv s -> bistep seqform rstar s = Some s' -> bi_inv s'.
-Proof.
+Proof using Fth eqb_spec Hb mulA_len mulA_lin residA_spec.
+  try clear SPD; try clear mulA_sym; try clear Hsol; try clear Hxs; try clear xs. try clear Hparts; try clear parts.
   intros Hrs (Hx & Hr & Hp & Hres & Hn & pre & Hh & Hpre) Hs.
   unfold KDefs.bi_step, KDefs.bi_half in Hs; cbn [o_inner o_axpy o_scale o_norm2sq seq_ops] in Hs.
   destruct (bi_p s) as [p|] eqn:Ep; [|discriminate]. specialize (Hp p eq_refl).
@@ -815,13 +817,13 @@ Proof.
   destruct (bi_p s) as [p|]; [|discriminate].
   destruct (fdiv _ _) as [alpha|]; [|discriminate].
   destruct (fdiv _ _) as [omega|]; [|discriminate].
-  inversion Hs; subst; simpl. eexists; reflexivity.
+  inversion Hs; subst s'; simpl. eexists; reflexivity.
 Qed.
 
 Lemma bi_iter_hist seqform rstar k s s' : iter_n (bistep seqform rstar) k s = Some s' -> exists t, bi_hist s' = bi_hist s ++ t.
 Proof.
   revert s; induction k as [|k IH]; intros s H; simpl in H.
-  - inversion H; subst. exists []. rewrite app_nil_r. reflexivity.
+  - inversion H; subst s'. exists []. rewrite app_nil_r. reflexivity.
   - destruct (bistep seqform rstar s) as [s1|] eqn:Es; [|discriminate].
     destruct (bi_step_hist _ _ _ _ Es) as [t1 H1]. destruct (IH _ H) as [t2 H2].
     exists (t1 ++ t2). rewrite H2, H1, app_assoc. reflexivity.
@@ -834,7 +836,8 @@ Theorem bi_history_true seqform K x0 sK : length x0 = n ->
   (forall j, (j <= K)%nat -> exists sj, iter_n (bistep seqform (bi_r (biinit x0))) j (biinit x0) = Some sj /\
       nth (bi_iter sj) (bi_hist sK) 0 = true_res_nsq (bi_x sj)) /\
   last (bi_hist sK) 0 = true_res_nsq (bi_x sK) /\ length (bi_hist sK) = S (bi_iter sK).
-Proof.
+Proof using Fth eqb_spec Hb mulA_len mulA_lin residA_spec.
+  try clear SPD; try clear mulA_sym; try clear Hsol; try clear Hxs; try clear xs. try clear Hparts; try clear parts.
   intros Hx0 HK.
   assert (Hrs : length (bi_r (biinit x0)) = n) by (apply residA_len; exact Hx0).
   assert (Hinv : forall k s, iter_n (bistep seqform (bi_r (biinit x0))) k (biinit x0) = Some s -> bi_inv s).
@@ -885,7 +888,8 @@ Proof.
 Qed.
 
 Lemma pcg_step_inv s s' : pcg_inv s -> pc_stop s = false -> pc_indef s = false -> pcstep s = Some s' -> pcg_inv s'.
-Proof.
+Proof using Fth eqb_spec Hb mulA_len mulA_lin residA_spec prec_len.
+  try clear SPD; try clear mulA_sym; try clear Hsol; try clear Hxs; try clear xs. try clear Hparts; try clear parts.
   intros (Hx & Hr & Hp & Hres & Hrest) Hst Hind Hs.
   destruct (Hrest Hind) as ((pre & Hh & Hpre) & Htest & Hrz). clear Hrest.
   unfold KDefs.pcg_step in Hs; cbn [o_inner o_axpy o_scale seq_ops] in Hs.
@@ -983,7 +987,8 @@ Qed.
 
 Theorem cg_run_dist max_iter x0 : length x0 = n ->
   cg_run F zero one mul opp div eqb ltb mulA residA dops b tol max_iter x0 = cgrun max_iter x0.
-Proof.
+Proof using Fth eqb_spec Hb mulA_len mulA_lin residA_spec Hparts.
+  try clear SPD; try clear mulA_sym; try clear Hsol; try clear Hxs; try clear xs.
   intros Hx0.
   assert (E0 : cg_init F residA dops b x0 = cginit x0).
   { unfold KDefs.cg_init; cbn [o_inner dist_ops seq_ops]. undist. reflexivity. }
@@ -1010,7 +1015,8 @@ Qed.
 
 Theorem bi_run_dist seqform max_iter x0 : length x0 = n ->
   bi_run F zero one mul opp div eqb ltb mulA residA dops b tol seqform max_iter x0 = birun seqform max_iter x0.
-Proof.
+Proof using Fth eqb_spec Hb mulA_len mulA_lin residA_spec Hparts.
+  try clear SPD; try clear mulA_sym; try clear Hsol; try clear Hxs; try clear xs.
   intros Hx0.
   assert (E0 : bi_init F residA dops b x0 = biinit x0).
   { unfold KDefs.bi_init; cbn [o_inner o_norm2sq dist_ops seq_ops]. undist. reflexivity. }
@@ -1044,7 +1050,8 @@ Proof. unfold KDefs.pcg_cont. destruct (pc_stop s), (pc_indef s); simpl; intros 
 
 Theorem pcg_run_dist max_iter x0 : length x0 = n ->
   pcg_run F zero one mul opp div eqb ltb mulA residA dops b tol prec ztol2 max_iter x0 = pcrun max_iter x0.
-Proof.
+Proof using Fth eqb_spec Hb mulA_len mulA_lin residA_spec prec_len Hparts.
+  try clear SPD; try clear mulA_sym; try clear Hsol; try clear Hxs; try clear xs.
   intros Hx0.
   assert (E0 : pcg_init F residA dops b prec x0 = pcinit x0).
   { unfold KDefs.pcg_init; cbn [o_inner dist_ops seq_ops]. undist. reflexivity. }
@@ -1066,7 +1073,8 @@ Theorem cg_run_spec max_iter x0 s' : length x0 = n ->
     (forall j, (j <= K)%nat -> exists sj, iter_n cgstep j (cginit x0) = Some sj /\
         nth (cg_iter sj) (cg_hist s') 0 = true_res_sq (cg_x sj)) /\
     last (cg_hist s') 0 = true_res_sq (cg_x s') /\ length (cg_hist s') = S (cg_iter s').
-Proof.
+Proof using Fth eqb_spec Hb mulA_len mulA_lin residA_spec.
+  try clear SPD; try clear mulA_sym; try clear Hsol; try clear Hxs; try clear xs. try clear Hparts; try clear parts.
   intros Hx0 [H|H]; unfold KDefs.cg_run in *.
   - destruct (run_done_spec _ _ _ _ _ _ H) as (K & HK & Hit & Hall & Hend).
     destruct (cg_history_true K x0 s' Hx0 Hit) as (H1 & H2 & H3).
@@ -1088,7 +1096,8 @@ Theorem bi_run_spec seqform max_iter x0 s' : length x0 = n ->
     (forall j, (j <= K)%nat -> exists sj, iter_n (bistep seqform rstar) j (biinit x0) = Some sj /\
         nth (bi_iter sj) (bi_hist s') 0 = true_res_nsq (bi_x sj)) /\
     last (bi_hist s') 0 = true_res_nsq (bi_x s') /\ length (bi_hist s') = S (bi_iter s').
-Proof.
+Proof using Fth eqb_spec Hb mulA_len mulA_lin residA_spec.
+  try clear SPD; try clear mulA_sym; try clear Hsol; try clear Hxs; try clear xs. try clear Hparts; try clear parts.
   intros Hx0 rstar [H|H]; unfold KDefs.bi_run in *; cbv zeta in H; fold rstar in H.
   - destruct (run_done_spec _ _ _ _ _ _ H) as (K & HK & Hit & Hall & Hend).
     destruct (bi_history_true seqform K x0 s' Hx0 Hit) as (H1 & H2 & H3).
@@ -1110,7 +1119,8 @@ Theorem pcg_run_spec max_iter x0 s' : length x0 = n ->
   exists K, (K <= max_iter)%nat /\ iter_n pcstep K (pcinit x0) = Some s' /\
     (forall j, (j < K)%nat -> exists sj, iter_n pcstep j (pcinit x0) = Some sj /\ pcg_inv sj /\ pcg_cont F sj = true) /\
     (pcrun max_iter x0 = Done s' -> K = max_iter \/ pcg_cont F s' = false).
-Proof.
+Proof using Fth eqb_spec Hb mulA_len mulA_lin residA_spec prec_len.
+  try clear SPD; try clear mulA_sym; try clear Hsol; try clear Hxs; try clear xs. try clear Hparts; try clear parts.
   intros Hx0 Hrun. unfold KDefs.pcg_run in *.
   assert (Hstep : forall s s1, pcg_inv s -> pcg_cont F s = true -> pcstep s = Some s1 -> pcg_inv s1).
   { intros s s1 Hi Hc Hs. destruct (pcg_cont_facts _ Hc). eapply pcg_step_inv; eauto. }
@@ -1118,7 +1128,7 @@ Proof.
   assert (Hpre : forall K s, iter_n pcstep K (pcinit x0) = Some s ->
             (forall j, (j < K)%nat -> exists sj, iter_n pcstep j (pcinit x0) = Some sj /\ pcg_cont F sj = true) -> pcg_inv s).
   { induction K as [|K IH]; intros s Hit Hall.
-    - simpl in Hit. inversion Hit; subst. apply pcg_init_inv; exact Hx0.
+    - simpl in Hit. inversion Hit; subst s. apply pcg_init_inv; exact Hx0.
     - destruct (iter_n_prefix _ pcstep _ _ _ K Hit ltac:(lia)) as (sK & H1 & H2).
       replace (S K - K)%nat with 1%nat in H2 by lia. simpl in H2.
       destruct (pcstep sK) as [s1|] eqn:Es; [|discriminate]. inversion H2; subst s1.
